@@ -33,6 +33,8 @@ def conc_rule(r):
         d["regex"] = WORDS[r["rx"]["t"]][0 if r["rx"]["c"] == "l" else 1]
         if r["rx"].get("t2"):
             d["regex"] += r"\s+" + WORDS[r["rx"]["t2"]][0 if r["rx"]["c"] == "l" else 1]
+        elif r["rx"].get("opt"):
+            d["regex"] = r.get("optform", "(%s)?") % d["regex"]
     if r["ic"] or r.get("ic_explicit"):
         d["ignore_case"] = r["ic"]
     if r["hs"]:
@@ -74,14 +76,14 @@ class Cc:
 
 
 def abs_rule(r):
-    rx = {"t": r["rx"]["t"], "c": r["rx"]["c"], "t2": r["rx"].get("t2", "")}
+    rx = {"t": r["rx"]["t"], "c": r["rx"]["c"], "t2": r["rx"].get("t2", ""), "opt": bool(r["rx"].get("opt")) and not r["rx"].get("t2") and r["rx"]["t"] != ""}
     return {"rx": rx, "ic": r["ic"], "hs": r["hs"] and bool(r["sk"]), "sk": list(r["sk"])}
 
 
 def rand_value(rnd):
     r = rnd.random()
     if r < 0.7:
-        n = rnd.choice([1, 1, 2, 3])
+        n = rnd.choice([1, 1, 2, 3, 1, 1, 2, 0])         # 0: the empty string
         return {"k": "str", "toks": [{"t": rnd.choice(["t1", "t2", "t3", "t4"]), "c": rnd.choice("lu")} for _ in range(n)]}
     return {"k": rnd.choice(["int", "null", "list"])}
 
@@ -94,6 +96,15 @@ def rand_events(rnd, n):
             if rnd.random() < 0.6:
                 data[k] = rand_value(rnd)
         out.append({"ts": rnd.randrange(0, 5), "dur": rnd.choice([0, 1, 3]), "data": data})
+    if out and rnd.random() < 0.35:
+        # the same values under other keys, in the same call (what matters is WHICH key holds a value)
+        e = copy.deepcopy(rnd.choice(out))
+        ks = sorted(e["data"])
+        if ks:
+            vals = [e["data"][k] for k in ks]
+            newks = rnd.sample(["k1", "k2", "k3", "k4"], len(ks))
+            e["data"] = dict(zip(newks, vals))
+            out.insert(rnd.randrange(len(out) + 1), e)
     return out
 
 
@@ -101,7 +112,8 @@ def rand_rule(rnd):
     t = rnd.choice(["t1", "t2", "t3", "t4", "t1", ""])
     sk = rnd.choice([[], [], ["k1"], ["k2"], ["k9", "k1"], ["k3", "k2"]])
     t2 = rnd.choice(["t1", "t2", "t3", "t4"]) if t and rnd.random() < 0.25 else ""
-    return {"rx": {"t": t, "c": rnd.choice("lu") if t else "l", "t2": t2}, "ic": rnd.random() < 0.4, "hs": bool(sk) or rnd.random() < 0.2, "sk": sk,
+    opt = bool(t) and not t2 and rnd.random() < 0.12
+    return {"optform": rnd.choice(["(%s)?", "(?:%s)*", "^(%s)?", "%s|$"]), "rx": {"t": t, "c": rnd.choice("lu") if t else "l", "t2": t2, "opt": opt}, "ic": rnd.random() < 0.4, "hs": bool(sk) or rnd.random() < 0.2, "sk": sk,
             "rxmode": rnd.choice(["empty", "missing"]), "ic_explicit": rnd.random() < 0.5}
 
 
@@ -115,7 +127,7 @@ def run_cases(args):
     rnd = random.Random(seed)
     cc = Cc(rnd)
     tr = []
-    for c in cases:
+    def one_case(c):
         op = c[0]
         inp = cc.mk(c[1], Event)
         pin = [cc.pev(e) for e in inp]
@@ -146,4 +158,10 @@ def run_cases(args):
         elif op == "simplify":
             out = simplify_string(inp, key=c[2])
             tr.append({"op": "frame", "fn": op, "inp": pin, "out": [cc.pev(e) for e in out], "added": [c[2]]})
+
+    for c in cases:
+        try:
+            one_case(c)
+        except Exception as e:      # no input of these grids makes the unchanged transforms raise
+            tr.append({"op": "raised", "fn": c[0], "exc": type(e).__name__, "inp": json.dumps(c[1:], default=str)[:400]})
     return tr
